@@ -552,6 +552,26 @@ func c12Msg(c *ctx, cs c12Case) {
 		} else if sOK && m2.SessionID() != session {
 			c.Violation("C12/msg/SetSessionID/stored", fmt.Sprintf("session %d stored as %d", session, m2.SessionID()), cs)
 		}
+		if sOK && !o3.Panicked {
+			// a fill on the stamped message stores the value and keeps every header value exactly (session id 0 is an id)
+			var f *ast.DataMessage
+			of := real.Try(func() {
+				f = ast.NewDataMessage(name, stream, function, wait, dir, ast.NewUintNode(1, "v")).SetSessionIDAndSystemBytes(session, []byte{1, 2, 3, 4}).FillVariables(map[string]interface{}{"v": 5})
+			})
+			c.Class("msg/fill-after-stamp")
+			if of.Panicked {
+				c.Violation("C12/msg/fill-after-stamp/refused", of.String(), cs)
+			} else {
+				var want []byte
+				if wait != 2 && session != -1 {
+					want = ref.EncodeMessage(&ref.Msg{Name: name, Stream: stream, Function: function, W: wait, Dir: dir, Session: session, Sys: [4]byte{1, 2, 3, 4},
+						Item: &ref.Item{Kind: ref.U1, Slots: []ref.Slot{{Uint: 5}}}})
+				}
+				if f.SessionID() != session || f.StreamCode() != stream || f.FunctionCode() != function || f.Name() != name || !bytes.Equal(f.ToBytes(), want) {
+					c.Violation("C12/msg/fill-after-stamp/stored", fmt.Sprintf("session %d S%dF%d after the fill: session %d S%dF%d bytes %x want %x", session, stream, function, f.SessionID(), f.StreamCode(), f.FunctionCode(), clipB(f.ToBytes()), clipB(want)), cs)
+				}
+			}
+		}
 	}
 	// NewHSMSDataMessage
 	wantH := base && (wait == 0 || wait == 1) && !(wait == 1 && function%2 == 0) && session >= 0 && session <= 65535
@@ -735,6 +755,41 @@ func runC12(c *ctx) {
 	for _, w := range []string{"duplicates", "ellipsis", "asciibounds", "wrongtypes"} {
 		c12Eval(c, c12Case{Op: "structure", Where: w})
 	}
+	// small trees of small items, built by the factories one after the other: each holds and encodes exactly the values it
+	// was given, also when an item of the same type and size was encoded just before or sits next to it in the same list
+	{
+		var prevGot, prevWant []byte
+		var prevTree *ref.Item
+		for i := 0; i < c.pick(20000, 200000); i++ {
+			g := gen.New(r, gen.Profile{MaxDepth: r.Intn(4), Budget: 40, MaxKids: 3, MaxElems: 3})
+			t := g.Tree()
+			if i%3 == 0 {
+				// siblings and nested lists of equal size and type
+				leaf := func() *ref.Item { return g.Scalar(ref.U1) }
+				a, b, d := leaf(), leaf(), leaf()
+				t = &ref.Item{Kind: ref.L, Children: []*ref.Item{a, {Kind: ref.L, Children: []*ref.Item{b, d}}}}
+				if i%2 == 0 {
+					t.Children = append(t.Children, &ref.Item{Kind: ref.L, Children: []*ref.Item{leaf(), leaf()}})
+				}
+			}
+			var got []byte
+			if o := real.Try(func() { got = real.Build(t).ToBytes() }); o.Panicked {
+				continue
+			}
+			want := ref.Encode(t)
+			c.NoteBulk(1, 1)
+			c.Class("structure/small-trees-encoded-side-by-side")
+			if !bytes.Equal(got, want) {
+				c.Violation("C12/structure/encoded-values-differ", fmt.Sprintf("%s encodes to %x, its values encode to %x", clipS(ref.Print(t)), clipB(got), clipB(want)), c12Case{Op: "tree", Str: ref.Print(t)})
+				break
+			}
+			if prevGot != nil && !bytes.Equal(prevGot, prevWant) {
+				c.Violation("C12/structure/earlier-encoding-changed", fmt.Sprintf("the bytes returned for %s read %x after %s was encoded; they were %x", clipS(ref.Print(prevTree)), clipB(prevGot), clipS(ref.Print(t)), clipB(prevWant)), c12Case{Op: "tree", Str: ref.Print(prevTree)})
+				break
+			}
+			prevGot, prevWant, prevTree = got, want, t
+		}
+	}
 	// messages
 	names := []string{"", "name", "a b", "a\tb", "a\nb", " a", "a ", "a\rb", "a\vb", "a\fb", "漢字", "a<b>.c", "//"}
 	for _, s := range []int{-1, 0, 1, 127, 128, 255, 1 << 31, -1 << 31} {
@@ -774,7 +829,7 @@ func runC12(c *ctx) {
 			}
 		}
 	}
-	c.Required = []string{"msg/far-out-of-range-parameter", "num/in-domain", "num/out-of-domain", "num/int-into-float", "float/non-finite", "float/overflow", "float/in-range", "binstr/valid", "binstr/invalid", "ascii/non-ascii-unicode", "ascii/invalid-utf8", "varname/valid", "varname/invalid", "varname/ellipsis", "msg/NewDataMessage", "msg/NewHSMSDataMessage", "msg/SetSessionID"}
+	c.Required = []string{"msg/far-out-of-range-parameter", "num/in-domain", "num/out-of-domain", "num/int-into-float", "float/non-finite", "float/overflow", "float/in-range", "binstr/valid", "binstr/invalid", "ascii/non-ascii-unicode", "ascii/invalid-utf8", "varname/valid", "varname/invalid", "varname/ellipsis", "msg/NewDataMessage", "msg/NewHSMSDataMessage", "msg/SetSessionID", "msg/fill-after-stamp", "structure/small-trees-encoded-side-by-side"}
 }
 
 func replayC12(c *ctx, raw json.RawMessage) {
